@@ -1774,3 +1774,126 @@ theorem fallback_geometry (doc : Doc) (f : Nat) (m : Aff) (i : Ins) (blk : Block
     simp only [flatMapE, hv, he, List.flatMap_cons, ih (fun x hx => hcell x (List.mem_cons_of_mem _ hx))]
 
 end EzdxfVerif.Render
+
+/-! ### pipeline colour cache; sign of the MINSERT spacing (session 3, follow-up) -/
+
+namespace EzdxfVerif.Render
+
+/-- every stored colour is the policy applied to its key -/
+def CacheOk (f : Color → Color) (cache : List (Color × Color)) : Prop := ∀ p ∈ cache, p.2 = f p.1
+
+theorem backendColor_ok (f : Color → Color) (cache : List (Color × Color)) (c : Color) (hc : CacheOk f cache) :
+    (backendColor f cache c).1 = f c ∧ CacheOk f (backendColor f cache c).2 := by
+  simp only [backendColor]
+  cases hfind : cache.find? (fun p => p.1 = c) with
+  | none =>
+    refine ⟨rfl, ?_⟩
+    intro p hp
+    rcases List.mem_cons.mp hp with rfl | hp
+    · rfl
+    · exact hc p hp
+  | some p =>
+    have hm := List.mem_of_find?_eq_some hfind
+    have hk := List.find?_some hfind
+    simp only [decide_eq_true_eq] at hk
+    exact ⟨by show p.2 = f c; rw [hc p hm, hk], hc⟩
+
+theorem pipelineColors_ok (f : Color → Color) : ∀ (ps : List Prim) (cache : List (Color × Color)), CacheOk f cache →
+    (pipelineColors f cache ps).1 = ps.map (fun p => { p with color := f p.color }) ∧ CacheOk f (pipelineColors f cache ps).2 := by
+  intro ps
+  induction ps with
+  | nil => intro cache hc; exact ⟨rfl, hc⟩
+  | cons p ps ih =>
+    intro cache hc
+    obtain ⟨h1, h2⟩ := backendColor_ok f cache p.color hc
+    obtain ⟨h3, h4⟩ := ih _ h2
+    simp only [pipelineColors, List.map_cons, h1, h3]
+    exact ⟨trivial, h4⟩
+
+theorem cross_sign (U1 U2 V1 V2 nx ny e s : Rat) (hx0 : nx ≠ 0) (hnx2 : nx * nx = U1 * U1 + U2 * U2)
+    (h1 : s * ny * -(e * (U2 / nx)) = V1) (h2 : s * ny * (e * (U1 / nx)) = V2) :
+    U1 * V2 - U2 * V1 = s * e * nx * ny := by
+  rw [← h1, ← h2]
+  field_simp
+  linear_combination (-(s * e * ny)) * hnx2
+
+def Aff.det (m : Aff) : Rat := m.a * m.d - m.b * m.c
+
+/-- the SIGN of the transformed MINSERT spacing: the column spacing is scaled by the length `nx > 0` of the image of the
+    reference's x-axis; the row spacing by `ny > 0` and it changes its sign - together with the y scale factor - exactly when
+    the matrix is a reflection (negative determinant) -/
+theorem transformIns_spacing_sign (m : Aff) (i i' : Ins) (h : transformIns m i = .ok i') (hsx : i.sx ≠ 0) (hsy : i.sy ≠ 0)
+    (hd : UnitDir i.dir) :
+    ∃ nx ny : Rat, 0 < nx ∧ 0 < ny ∧ i'.sx = nx * i.sx ∧ i'.colSp = i.colSp * nx ∧
+      (0 < m.det → i'.sy = ny * i.sy ∧ i'.rowSp = i.rowSp * ny) ∧
+      (m.det < 0 → i'.sy = -(ny * i.sy) ∧ i'.rowSp = -(i.rowSp * ny)) ∧ m.det ≠ 0 := by
+  obtain ⟨a, b, c, d, tx, ty⟩ := m
+  obtain ⟨props, name, ⟨px, py⟩, sx, sy, ⟨p, q⟩, flip, attribs, rows, cols, rowSp, colSp⟩ := i
+  simp only [UnitDir] at hd
+  simp only at hsx hsy
+  simp only [transformIns] at h
+  split at h
+  · simp at h
+  · rename_i hz
+    split at h
+    · simp at h
+    · rename_i ho
+      split at h
+      · rename_i nx ny hnx hny
+        obtain ⟨hnx0, hnx2⟩ := sqrtQ_spec _ _ hnx
+        obtain ⟨hny0, hny2⟩ := sqrtQ_spec _ _ hny
+        clear hnx hny
+        simp only [not_or] at hz
+        simp only [ne_eq, Decidable.not_not] at ho
+        have hx0 : nx ≠ 0 := by
+          intro h0; apply hz.1; simp only [dot]; rw [← hnx2, h0]; ring
+        have hy0 : ny ≠ 0 := by
+          intro h0; apply hz.2; simp only [dot]; rw [← hny2, h0]; ring
+        clear hz
+        have hxp : 0 < nx := lt_of_le_of_ne hnx0 (Ne.symm hx0)
+        have hyp : 0 < ny := lt_of_le_of_ne hny0 (Ne.symm hy0)
+        simp only [Except.ok.injEq] at h
+        have he := exSign_cases flip
+        have hee : exSign flip * exSign flip = 1 := by rcases he with h1 | h1 <;> rw [h1] <;> norm_num
+        simp only [Aff.lin, ocsFlip, dot] at hnx2 hny2 ho
+        obtain ⟨hSp, hSn⟩ := sign_choice (exSign flip * p * a + q * c) (exSign flip * p * b + q * d)
+          (exSign flip * -q * a + p * c) (exSign flip * -q * b + p * d)
+          nx ny 1 hx0 hy0 hnx2 hny2 ho (exSign flip) he
+        -- cross product of the images = e (p² + q²) det m
+        have hcross : (exSign flip * p * a + q * c) * (exSign flip * -q * b + p * d) -
+            (exSign flip * p * b + q * d) * (exSign flip * -q * a + p * c) = exSign flip * (a * d - b * c) := by
+          linear_combination (exSign flip * (a * d - b * c)) * hd
+        split at h
+        · rename_i hc
+          simp only [Aff.lin, ocsFlip] at hc
+          obtain ⟨hS1, hS2⟩ := hSp hc
+          subst h
+          have hcs := cross_sign (exSign flip * p * a + q * c) (exSign flip * p * b + q * d) (exSign flip * -q * a + p * c) (exSign flip * -q * b + p * d) nx ny (exSign flip) 1 hx0 hnx2 (by linear_combination hS1) (by linear_combination hS2)
+          have hdet : nx * ny = a * d - b * c := by
+            have h3 : exSign flip * (nx * ny) = exSign flip * (a * d - b * c) := by rw [← hcross, hcs]; ring
+            linear_combination (exSign flip) * h3 - (nx * ny - (a * d - b * c)) * hee
+          have hpos : 0 < a * d - b * c := by rw [← hdet]; exact mul_pos hxp hyp
+          refine ⟨nx, ny, hxp, hyp, rfl, ?_, ?_, ?_, ?_⟩
+          · simp only [hsx, ne_eq, not_false_eq_true, if_true]; field_simp
+          · intro _; refine ⟨rfl, ?_⟩
+            simp only [hsy, ne_eq, not_false_eq_true, if_true]; field_simp
+          · intro hneg; simp only [Aff.det] at hneg; linarith
+          · simp only [Aff.det]; exact ne_of_gt hpos
+        · rename_i hc
+          simp only [Aff.lin, ocsFlip] at hc
+          obtain ⟨hS1, hS2⟩ := hSn hc
+          subst h
+          have hcs := cross_sign (exSign flip * p * a + q * c) (exSign flip * p * b + q * d) (exSign flip * -q * a + p * c) (exSign flip * -q * b + p * d) nx ny (exSign flip) (-1) hx0 hnx2 (by linear_combination hS1) (by linear_combination hS2)
+          have hdet : -(nx * ny) = a * d - b * c := by
+            have h3 : exSign flip * (-(nx * ny)) = exSign flip * (a * d - b * c) := by rw [← hcross, hcs]; ring
+            linear_combination (exSign flip) * h3 - (-(nx * ny) - (a * d - b * c)) * hee
+          have hneg : a * d - b * c < 0 := by rw [← hdet]; linarith [mul_pos hxp hyp]
+          refine ⟨nx, ny, hxp, hyp, rfl, ?_, ?_, ?_, ?_⟩
+          · simp only [hsx, ne_eq, not_false_eq_true, if_true]; field_simp
+          · intro hp; simp only [Aff.det] at hp; linarith
+          · intro _; refine ⟨rfl, ?_⟩
+            simp only [hsy, ne_eq, not_false_eq_true, if_true]; field_simp
+          · simp only [Aff.det]; exact ne_of_lt hneg
+      · simp at h
+
+end EzdxfVerif.Render
